@@ -22,6 +22,9 @@ Definition zmem (x : Z) (l : list Z) : bool := existsb (Z.eqb x) l.
 (* np.setdiff1d(a, b) *)
 Definition py_setdiff1d (a b : list Z) : list Z := zsort_unique (filter (fun x => negb (zmem x b)) a).
 Definition py_len {A} (l : list A) : Z := Z.of_nat (length l).
+(* [x[int(i)] for i in idx] for non-negative indices in range (Python raises IndexError beyond the end and wraps
+   negative indices; the tie theorems are stated where neither happens) *)
+Definition py_take (x : list Z) (idx : list Z) : list Z := map (fun i => nth (Z.to_nat i) x 0) idx.
 
 (* int(np.ceil(np.sqrt(m))) for a non-negative integer m (exactness of the float square root for the
    magnitudes that occur is part of the trusted base and is sampled by the C10 check) *)
@@ -101,3 +104,7 @@ Proof.
   2:{ intros x. rewrite zmem_of_nat. reflexivity. }
   apply zsort_unique_increasing, zincreasing_map_filter_seq.
 Qed.
+
+Lemma py_take_of_nat (x : list Z) (idx : list nat) :
+  py_take x (map Z.of_nat idx) = map (fun i => nth i x 0) idx.
+Proof. unfold py_take. rewrite map_map. apply map_ext. intros i. rewrite Nat2Z.id. reflexivity. Qed.
